@@ -24,19 +24,24 @@ theorem comparatorStart_two_fwd (x y L : Int) (hy0 : 0 < y) (hyx : y ≤ x) (hxL
   simp [comparatorStart, hb, splitBridging, strandsUsed, Loc.strand, splitFwd, h1, isValidSplit, hov, sortInts,
     insertInt, minList, maxList, bind, Except.bind, pure, Except.pure]
 
+theorem strand_two (a b : Part) (h : a.strand = b.strand) : (Loc.compound [a, b]).strand = a.strand := by
+  simp [Loc.strand, h]
+
 theorem cross_two_fwd_exact (x y st L : Int) (s : Strand) (hy0 : 0 < y) (hyx : y ≤ x) (hxL : x < L)
     (hst0 : 0 < st) (hstL : st < L) :
     ∃ r, offsetLocation (.compound [⟨x, L, s⟩, ⟨0, y, s⟩]) (-st) L = .ok r ∧
-      ((y < x ∧ st ≤ x ∧ y ≤ st ∧ wholeFix L r = .simple ⟨x + -st, y + -st + L, s⟩) ∨ (wholeFix L r).end = L) := by
+      ((y < x ∧ st ≤ x ∧ y ≤ st ∧ r = .simple ⟨x + -st, y + -st + L, s⟩ ∧ wholeFix L r = r) ∨
+       (y = x ∧ r = .compound [⟨x, L, s⟩, ⟨0, y, s⟩] ∧ wholeFix L r = .simple ⟨0, L, s⟩) ∨
+       (¬ (st ≤ x ∧ y ≤ st) ∧ ∃ a b, 0 < a ∧ wholeFix L r = .compound [⟨a, L, s⟩, ⟨0, b, s⟩])) := by
   have hL0 : L ≠ 0 := by omega
   by_cases hwhole : y = x
   · subst hwhole
     have hlen : (Loc.compound [⟨y, L, s⟩, ⟨0, y, s⟩]).len = L := by rw [len_two]; simp
-    refine ⟨.compound [⟨y, L, s⟩, ⟨0, y, s⟩], ?_, .inr ?_⟩
+    refine ⟨.compound [⟨y, L, s⟩, ⟨0, y, s⟩], ?_, .inr (.inl ⟨rfl, rfl, ?_⟩)⟩
     · have hk : -st ≠ 0 := by omega
       have hlt : ¬ L < 1 := by omega
       simp [offsetLocation, hL0, hk, hlt, hlen, pure, Except.pure, bind, Except.bind]
-    · simp [wholeFix, hlen, Loc.end]
+    · simp [wholeFix, hlen, strand_two]
   · have hyx' : y < x := by omega
     have hgen := offsetLocation_general (.compound [⟨x, L, s⟩, ⟨0, y, s⟩]) (-st) L _ (by omega) (by omega)
       (by rw [len_two]; simp; omega) (by rw [start_two, end_two]; simp; omega)
@@ -49,26 +54,24 @@ theorem cross_two_fwd_exact (x y st L : Int) (s : Strand) (hy0 : 0 < y) (hyx : y
         simp only [List.cons_append, List.nil_append] at hgen
         rw [finishOffset_two_adj L ⟨x + -st, L + -st, s⟩ ⟨0 + -st + L, y + -st + L, s⟩ (by simp [PartIn]; omega)
           (by simp [PartIn]; omega) (by simp; omega) rfl] at hgen
-        refine ⟨_, hgen, .inl ⟨hyx', h1, h2, ?_⟩⟩
+        refine ⟨_, hgen, .inl ⟨hyx', h1, h2, rfl, ?_⟩⟩
         have hl : ¬ (Loc.simple ⟨x + -st, y + -st + L, s⟩).len = L := by simp [Loc.len, Loc.parts, Part.len]; omega
         simp [wholeFix, hl]
       · rw [wrapPart_straddle L ⟨0 + -st, y + -st, s⟩ (by simp; omega) (by simp; omega) (by simp; omega) (by simp; omega)] at hgen
         simp only [List.cons_append, List.nil_append] at hgen
         rw [finishOffset_three_first L ⟨x + -st, L + -st, s⟩ ⟨0 + -st + L, L, s⟩ ⟨0, y + -st, s⟩ (by simp [PartIn]; omega)
           (by simp [PartIn]; omega) (by simp [PartIn]; omega) (by simp; omega) rfl (by simp; omega)] at hgen
-        refine ⟨_, hgen, .inr ?_⟩
+        refine ⟨_, hgen, .inr (.inr ⟨by omega, x + -st, y + -st, by omega, ?_⟩)⟩
         have hl : ¬ (Loc.compound [⟨x + -st, L, s⟩, ⟨0, y + -st, s⟩]).len = L := by rw [len_two]; simp; omega
-        simp only [wholeFix, hl, if_false, end_two]
-        omega
+        simp only [wholeFix, hl, if_false]
     · rw [wrapPart_straddle L ⟨x + -st, L + -st, s⟩ (by simp; omega) (by simp; omega) (by simp; omega) (by simp; omega),
         wrapPart_below L ⟨0 + -st, y + -st, s⟩ (by simp; omega) (by simp; omega) (by simp; omega)] at hgen
       simp only [List.cons_append, List.nil_append] at hgen
       rw [finishOffset_three_last L ⟨x + -st + L, L, s⟩ ⟨0, L + -st, s⟩ ⟨0 + -st + L, y + -st + L, s⟩ (by simp [PartIn]; omega)
         (by simp [PartIn]; omega) (by simp [PartIn]; omega) (by simp; omega) (by simp; omega) rfl] at hgen
-      refine ⟨_, hgen, .inr ?_⟩
+      refine ⟨_, hgen, .inr (.inr ⟨by omega, x + -st + L, y + -st + L, by omega, ?_⟩)⟩
       have hl : ¬ (Loc.compound [⟨x + -st + L, L, s⟩, ⟨0, y + -st + L, s⟩]).len = L := by rw [len_two]; simp; omega
-      simp only [wholeFix, hl, if_false, end_two]
-      omega
+      simp only [wholeFix, hl, if_false]
 
 
 /-- the first two components of the position key -/
@@ -88,13 +91,14 @@ theorem bridges_two_fwd (x y L : Int) (s : Strand) (hs : s ≠ .rev) (hx0 : 0 < 
 
 /-- the load key of a written area is the pair its position key starts with -/
 theorem origin_loadKey (rd : RegionData) (rec : BioRecord) (hwf : wfInput rd rec = true) (gloc floc : Loc)
-    (hshape : areaShape rec.length floc = true)
+    (hshape : areaShape rec.length rd floc = true)
     (ho : (rd.crossesOrigin = false ∧ rd.start ≤ floc.start ∧ floc.end ≤ rd.end ∧ gloc = shiftLoc floc (-rd.start)) ∨
           (rd.crossesOrigin = true ∧ rd.start ≤ floc.start ∧ floc.end ≤ rec.length ∧ gloc = shiftLoc floc (-rd.start)) ∨
           (rd.crossesOrigin = true ∧ 0 ≤ floc.start ∧ floc.end ≤ rd.end ∧
             offsetLocation floc (rec.length - rd.start) rec.length = .ok gloc) ∨
           (rd.crossesOrigin = true ∧ bridgesOrigin floc = true ∧ ∃ l, offsetLocation floc (-rd.start) rec.length = .ok l ∧
-            (wholeFix rec.length l).end ≤ rec.length - rd.start + rd.end ∧ gloc = wholeFix rec.length l)) :
+            (wholeFix rec.length l).end ≤ rec.length - rd.start + rd.end ∧ bridgesOrigin (wholeFix rec.length l) = false ∧
+            gloc = wholeFix rec.length l)) :
     loadKey gloc = posPair rd rec.length floc := by
   obtain ⟨hL, hcross, hplain, _⟩ := wf_unpack rd rec hwf
   unfold areaShape at hshape
@@ -134,27 +138,27 @@ theorem origin_loadKey (rd : RegionData) (rec : BioRecord) (hwf : wfInput rd rec
           have hlen : ¬ (Loc.simple ⟨a, b, .fwd⟩).len = rec.length := by simp [Loc.len, Loc.parts, Part.len]; omega
           simp [offsetLocation, hk, hL0, hlt, hlen, this, bind, Except.bind, Loc.start, Loc.end] at hg
       have hoff : offsetLocation (.simple ⟨a, b, .fwd⟩) (rec.length - rd.start) rec.length
-          = .ok (shiftLoc (.simple ⟨a, b, .fwd⟩) (rec.length - rd.start)) :=
-        offset_no_wrap _ _ _ (by simp [Loc.parts]) (by intro p hp; simp [Loc.parts] at hp; subst hp; exact hab)
-          (by omega) hL (by simp [Loc.len, Loc.parts, Part.len]; omega) (by simp [Loc.start]; omega) (by simp [Loc.end]; omega)
+          = .ok (.simple (shiftPart (rec.length - rd.start) ⟨a, b, .fwd⟩)) :=
+        offset_simple_shift _ _ _ (by omega) hL hab (by simp; omega) (by simp; omega) (by simp; omega)
       rw [hoff] at hg
       injection hg with hg
       rw [← hg]
       have hn : a - rd.start < 0 := by omega
-      simp [shiftLoc, loadKey_simple, posPair, positionKey, areaStart, Loc.strand, Loc.parts, hn, Loc.len, Part.len]
+      simp [shiftPart, loadKey_simple, posPair, positionKey, areaStart, Loc.strand, Loc.parts, hn, Loc.len, Part.len]
       omega
     · rw [hnb] at hb; cases hb
   · -- a forward pair over the origin
     rename_i a b
     simp only [Bool.and_eq_true, decide_eq_true_eq, beq_iff_eq] at hshape
-    obtain ⟨⟨⟨⟨⟨⟨hsa, hsb⟩, h1⟩, h2⟩, h3⟩, h4⟩, h5⟩ := hshape
+    simp only [Bool.or_eq_true, Bool.not_eq_true', decide_eq_true_eq] at hshape
+    obtain ⟨⟨⟨⟨⟨⟨⟨hsa, hsb⟩, h1⟩, h2⟩, h3⟩, h4⟩, h5⟩, h6⟩ := hshape
     obtain ⟨x, ahi, as⟩ := a
     obtain ⟨blo, y, bs⟩ := b
-    simp only at hsa hsb h1 h2 h3 h4 h5
+    simp only at hsa hsb h1 h2 h3 h4 h5 h6
     subst hsa hsb h1 h2
     have hx0 : 0 < x := by omega
     have hbr := bridges_two_fwd x y rec.length .fwd (by decide) hx0
-    rcases ho with ⟨hc, hs1, hs2, hg⟩ | ⟨hc, hs1, hs2, hg⟩ | ⟨hc, hs1, hs2, hg⟩ | ⟨hc, hb, l, hl, hk, hg⟩
+    rcases ho with ⟨hc, hs1, hs2, hg⟩ | ⟨hc, hs1, hs2, hg⟩ | ⟨hc, hs1, hs2, hg⟩ | ⟨hc, hb, l, hl, hk, hnb, hg⟩
     · -- the region is the whole record from the origin: the area stays as it is
       rw [start_two] at hs1
       rw [end_two] at hs2
@@ -180,14 +184,25 @@ theorem origin_loadKey (rd : RegionData) (rec : BioRecord) (hwf : wfInput rd rec
       rw [hr] at hl
       injection hl with hl
       subst hl
-      rcases hcase with ⟨hyx, hsx, hys, hw⟩ | hend
-      · rw [hg, hw]
+      rcases hcase with ⟨hyx, hsx, hys, hr', hw⟩ | ⟨hyx, _, hw⟩ | ⟨_, a', b', ha', hw⟩
+      · rw [hg, hw, hr']
+        have hn : ¬ (x - rd.start < 0) := by omega
+        simp [loadKey_simple, posPair, positionKey, areaStart, Loc.strand, Loc.parts, hn, hbr, hc, Loc.len, Part.len]
+        omega
+      · -- all the way round: starts where the region starts
+        have hxs : x = rd.start := by
+          rcases h6 with h6 | h6
+          · rcases h6 with h6 | h6
+            · omega
+            · rw [hc] at h6; cases h6
+          · exact h6
+        rw [hg, hw]
         have hn : ¬ (x - rd.start < 0) := by omega
         simp [loadKey_simple, posPair, positionKey, areaStart, Loc.strand, Loc.parts, hn, hbr, hc, Loc.len, Part.len]
         omega
       · exfalso
-        rw [hend] at hk
-        omega
+        rw [hw, bridges_two_fwd a' b' rec.length .fwd (by decide) ha'] at hnb
+        cases hnb
   · cases hshape
 
 theorem written_origin (rd : RegionData) (rec : BioRecord) (w : Written) (h : writeToGenbank rd rec = .ok w)
@@ -198,18 +213,11 @@ theorem written_origin (rd : RegionData) (rec : BioRecord) (w : Written) (h : wr
   obtain ⟨w0, hw0, hadj⟩ := adjusted_mem rd _ ws adjusted ha g hg
   exact ⟨w0.f, base_origin rd rec seq ws parent hb w0 hw0, hadj⟩
 
-theorem cross_len (rd : RegionData) (rec : BioRecord) (he0 : 0 < rd.end) (hes : rd.end ≤ rd.start)
-    (hsL : rd.start < rec.length) :
-    ((sliceSeq rec.seq rd.start rec.length ++ sliceSeq rec.seq 0 rd.end).length : Int) = rec.length - rd.start + rd.end := by
-  have hlen1 := sliceSeq_length rec.seq rd.start rec.length (by omega) (by omega) (by simp [BioRecord.length])
-  have hlen2 := sliceSeq_length rec.seq 0 rd.end (by omega) (by omega) (by simp [BioRecord.length] at hsL ⊢; omega)
-  rw [List.length_append]; push_cast; rw [hlen1, hlen2]; omega
-
 /-- the source feature of a feature of the region record, with the load key of the new location -/
 theorem origin_source (rd : RegionData) (rec : BioRecord) (hwf : wfInput rd rec = true) (g0 : BioFeature)
     (ho : Origin rd rec g0) :
     ∃ f ∈ rec.features, g0.type = f.type ∧ g0.q = f.q ∧
-      (areaShape rec.length f.loc = true → loadKey g0.loc = posPair rd rec.length f.loc) := by
+      (areaShape rec.length rd f.loc = true → loadKey g0.loc = posPair rd rec.length f.loc) := by
   obtain ⟨hL, hcross, hplain, _⟩ := wf_unpack rd rec hwf
   cases ho with
   | plain f hf hc h1 h2 hg =>
@@ -221,11 +229,11 @@ theorem origin_source (rd : RegionData) (rec : BioRecord) (hwf : wfInput rd rec 
   | post f hf hc h1 h2 l hl hg =>
     refine ⟨f, hf, by rw [hg], by rw [hg], fun hs => ?_⟩
     exact origin_loadKey rd rec hwf g0.loc f.loc hs (.inr (.inr (.inl ⟨hc, h1, h2, by rw [hg]; exact hl⟩)))
-  | cross f hf hc hb l hl hk hg =>
+  | cross f hf hc hb l hl hk hnb hg =>
     refine ⟨f, hf, by rw [hg], by rw [hg], fun hs => ?_⟩
     obtain ⟨he0, hes, hsL⟩ := hcross hc
-    rw [cross_len rd rec he0 (by omega) hsL] at hk
-    exact origin_loadKey rd rec hwf g0.loc f.loc hs (.inr (.inr (.inr ⟨hc, hb, l, hl, hk, by rw [hg]⟩)))
+    rw [cross_len rd rec he0 hes hsL] at hk
+    exact origin_loadKey rd rec hwf g0.loc f.loc hs (.inr (.inr (.inr ⟨hc, hb, l, hl, hk, hnb, by rw [hg]⟩)))
 
 theorem linkedKind_loc (type : String) (num : BioFeature → Option Int) (areas : List (Int × Loc)) (rec : BioRecord)
     (h : linkedKind type num areas rec = true) (f : BioFeature) (hf : f ∈ rec.features) (ht : f.type = type)
@@ -240,7 +248,7 @@ theorem linkedKind_loc (type : String) (num : BioFeature → Option Int) (areas 
     numbers follow the order in which a loaded record orders the written locations -/
 theorem follows_generic (rd : RegionData) (rec : BioRecord) (w : Written) (h : writeToGenbank rd rec = .ok w)
     (hwf : wfInput rd rec = true) (type : String) (num : BioFeature → Option Int) (areas : List (Int × Loc))
-    (hnd : (areas.map (·.1)).Nodup) (hshape : ∀ a ∈ areas, areaShape rec.length a.2 = true)
+    (hnd : (areas.map (·.1)).Nodup) (hshape : ∀ a ∈ areas, areaShape rec.length rd a.2 = true)
     (hlink : linkedKind type num areas rec = true)
     (hnum : ∀ g0 g, adjustFeature rd rec.length (renumbering rd rec.length) g0 = .ok g → g0.type = type →
       ∀ m, num g = some m → ∃ n, num g0 = some n ∧ dictGet (numberByPosition areas rd rec.length) n = .ok m)
